@@ -131,6 +131,14 @@ def run(ctx):
         y = np.array(yv, dtype=(str if str_lab else float)) if not str_lab else np.array(yv)
         sw = rng.choice([0.0, 1.0, 1e6, 0.5], size=n) if scen == "weights" else None
         Xq = np.vstack([X if h % 4 == 1 else X[:3], rng.normal(size=(2, 2)) * 50])
+        # representation of the inputs: C order / Fortran order / strided views / nested lists / float32
+        from ..core import relayout
+        rep = [0, 1, 3, 4, 5, 0][(h // 4) % 6]
+        if rep in (1, 3):
+            X, Xq = relayout(X, rep), relayout(Xq, rep)
+        elif rep == 5:
+            X, Xq = X.astype(np.float32).astype(float), Xq.astype(np.float32).astype(float)      # values representable in float32 ...
+            X32, Xq32 = X.astype(np.float32), Xq.astype(np.float32)                                 # ... handed over as float32
         for name, clf, multi in classifiers(classes, cost, seed):
             clf.set_params(missing_label=missing)
             if "estimators" in clf.get_params():
@@ -147,10 +155,10 @@ def run(ctx):
                     clf.partial_fit(X[: n // 2], yy[: n // 2], **({} if ww is None else {"sample_weight": ww[: n // 2]}))
                     clf.partial_fit(X[n // 2:], yy[n // 2:], **({} if ww is None else {"sample_weight": ww[n // 2:]}))
                 elif ww is None:
-                    clf.fit(X, yy)
+                    clf.fit(X.tolist() if rep == 4 else X, yy.tolist() if rep == 4 else yy)
                 else:
                     clf.fit(X, yy, sample_weight=ww)
-                P = np.asarray(clf.predict_proba(Xq), dtype=float)
+                P = np.asarray(clf.predict_proba(Xq.tolist() if rep == 4 else Xq), dtype=float)
                 pred = np.asarray(clf.predict(Xq))
             except Exception as e:
                 if scen == "weights" and isinstance(e, (ValueError, ZeroDivisionError, FloatingPointError)) and "Sklearn" in name:
